@@ -10,6 +10,7 @@ CONSTANTS
   MaxBatch = 2
   BatchVecs = {1, 2, 3, 4}
   FConsolidateTombstones = FALSE
+  ConsolidateBatch = 0
   FBufferBlind = FALSE
 VIEW View
 INVARIANTS TypeOK GetOK QueryOK IndexOK EmitDone
